@@ -14,9 +14,11 @@ import (
 	"crypto"
 	"crypto/dsa"
 	"crypto/ecdsa"
+	"crypto/elliptic"
 	"crypto/rand"
 	"crypto/rsa"
 	"encoding/asn1"
+	"fmt"
 	"math/big"
 	"strconv"
 	"sync"
@@ -160,6 +162,26 @@ func reencodings(sig []byte) []namedSig {
 			padded = derTLV(0x02, append([]byte{0xff}, r.Bytes...)) // negative r: sign extension
 		}
 		out = append(out, namedSig{"padded-r", derTLV(0x30, append(padded, after...))})
+	}
+	// the same residues, other representatives: r + n and s + n for the order n of each curve a signer can have
+	// (canonical DER, one octet longer at most; a verifier must insist on r, s in [1, n-1] - round 12, C09-m1)
+	var rs struct{ R, S *big.Int }
+	if rest, err := asn1.Unmarshal(sig, &rs); err == nil && len(rest) == 0 && rs.R != nil && rs.S != nil {
+		for _, cv := range []struct {
+			name string
+			n    *big.Int
+		}{{"sm2", sm2.P256Sm2().Params().N}, {"p224", elliptic.P224().Params().N}, {"p256", elliptic.P256().Params().N},
+			{"p384", elliptic.P384().Params().N}, {"p521", elliptic.P521().Params().N}} {
+			for k := int64(1); k <= 2; k++ {
+				kn := new(big.Int).Mul(big.NewInt(k), cv.n)
+				if b, err := asn1.Marshal(struct{ R, S *big.Int }{rs.R, new(big.Int).Add(rs.S, kn)}); err == nil {
+					out = append(out, namedSig{fmt.Sprintf("s-plus-%dn-%s", k, cv.name), b})
+				}
+				if b, err := asn1.Marshal(struct{ R, S *big.Int }{new(big.Int).Add(rs.R, kn), rs.S}); err == nil {
+					out = append(out, namedSig{fmt.Sprintf("r-plus-%dn-%s", k, cv.name), b})
+				}
+			}
+		}
 	}
 	return out
 }
